@@ -278,6 +278,15 @@ func multi(t []string) core.Result {
 	}
 	core.Count(fmt.Sprintf("multi:k=%d", k))
 	impl := "w=" + strings.Join(outcome, ",") + " err=" + errs
+	if failure == "" {
+		for _, h := range ms {
+			if h.logged {
+				if r, bad := loggerErrorVerdict(logger, o1, o2, h.a, h.err, "", impl); bad {
+					return r
+				}
+			}
+		}
+	}
 	if failure != "" {
 		return core.Result{Impl: impl, Fail: failure, Sig: failSig}
 	}
